@@ -8,12 +8,14 @@ CONSTANTS
   Ctl <- C_pingS_ping_close
   Closer = FALSE
   Rd <- R_none
+  Fault <- F_none
   ControlTakesLock = TRUE
   FlushAtomic = TRUE
   LatchChecked = TRUE
   CloseLatches = TRUE
   TimeoutReleases = TRUE
   HandlerControlPath = TRUE
+  TimeoutFaultLatches = TRUE
   Fifo = TRUE
   OnlyBad = TRUE
   Family = "atk_timeout"
